@@ -86,6 +86,20 @@ def cargo_build(avx2=False):
     return r.returncode == 0, (r.stdout + r.stderr)
 
 
+CLI_TARGET = os.path.join(HARNESS, "target-cli")
+CLI_BIN = os.path.join(CLI_TARGET, "release")
+
+
+def cli_build():
+    """The workspace's command-line programs, built from /repo's current tree into /verif/harness/target-cli."""
+    env = dict(ENV)
+    env["CARGO_TARGET_DIR"] = CLI_TARGET
+    cmd = ["cargo", "build", "--release", "--offline", "-p", "dictgen", "-p", "compile", "-p", "map", "-p", "tokenize"]
+    r = subprocess.run(cmd, cwd="/repo", env=env, timeout=3600, stdin=subprocess.DEVNULL, stdout=subprocess.PIPE,
+                       stderr=subprocess.PIPE, text=True)
+    return r.returncode == 0, (r.stdout + r.stderr)
+
+
 def audit(theorems, modules):
     """#print axioms for every property theorem; returns {theorem: [axioms]} or error text."""
     os.makedirs(WORK, exist_ok=True)
@@ -164,9 +178,14 @@ def run_stream(pid, idx, hargs, per_case_timeout=20, binary=None):
     os.makedirs(d, exist_ok=True)
     cases = os.path.join(d, f"cases_{idx}.txt")
     model = os.path.join(d, f"model_{idx}.txt")
+    henv = dict(ENV)
+    henv["VERIF_CLI_BIN"] = CLI_BIN
+    henv["VERIF_CLI_WORK"] = os.path.join(d, "cli-scratch-%d" % os.getpid())
     with open(cases, "w") as f:
-        r = subprocess.run([binary or VHARNESS] + hargs, env=ENV, stdin=subprocess.DEVNULL, stdout=f,
+        r = subprocess.run([binary or VHARNESS] + hargs, env=henv, stdin=subprocess.DEVNULL, stdout=f,
                            stderr=subprocess.DEVNULL, timeout=7200)
+    import shutil
+    shutil.rmtree(henv["VERIF_CLI_WORK"], ignore_errors=True)
     if r.returncode != 0:
         # the harness died (abort/hang inside the implementation): last printed case is the suspect
         return None, cases
@@ -289,11 +308,19 @@ def check(pid, tier, seed, replay=None):
             pinned = [(["replayfile", os.path.join(cdir, f)], streams[0][1]) for f in sorted(os.listdir(cdir))]
             streams = pinned + list(streams)
     avx2_built = False
+    cli_built = False
     all_records = []
     for idx, entry in enumerate(streams):
         hargs, classify = entry[0], entry[1]
         opts = entry[2] if len(entry) > 2 else {}
         binary = None
+        if opts.get("cli") or (hargs[0] == "replayfile" and ".cli" in open(hargs[1], errors="replace").read()):
+            if not cli_built:
+                ok, out = cli_build()
+                if not ok:
+                    infra("cargo build of the command-line programs (dictgen, compile, map, tokenize) failed\n" + out[-3000:])
+                cli_built = True
+            dist["build=cli"] += 0
         if opts.get("avx2"):
             if not have_avx2():
                 notes.append("AVX2 not available on this CPU: stream skipped: " + " ".join(hargs))
@@ -356,6 +383,8 @@ def check(pid, tier, seed, replay=None):
             elif info.get("corr_fail"):
                 model_disagreements += 1
                 broken.append(("corr", info["corr_fail"], f"{with_def(line)}\nMODEL {mobs[:800]}\nP {extra}"))
+            elif info.get("ignore"):
+                pass
             elif impl != mobs and not line.startswith("def "):
                 model_disagreements += 1
                 broken.append(("corr", "model and implementation disagree",
